@@ -3,6 +3,7 @@
   Property theorems only.
 -/
 import Pongo.Props.C12
+import Pongo.Lemmas.KeepsAll
 import Pongo.Gen.FilterFacts
 
 namespace Pongo.C13
@@ -105,5 +106,18 @@ example : (macroEnv [] [(b!"b", .int 9)] [b!"a", b!"b"] [mkV (.int 1)]).lookup b
   · exact macro_binds_by_position [] _ [b!"a", b!"b"] [mkV (.int 1)] (by decide) 0 (by decide) (by decide)
   · rw [macro_omitted_gets_default [] _ [b!"a", b!"b"] [mkV (.int 1)] b!"b" (by decide)]
     simp [C12.set_lookup_self]
+
+/-- **A call counts itself in and out again.**  Calling anything — a local macro, an imported one, a
+    guarded or unguarded closure, with any arguments, from any state, and whether the call returns,
+    fails, or is refused by the depth guard — leaves every context on the stack exactly as it was,
+    its recursion counter included.  Hence the counter a context holds is always the number of
+    calls currently *nested* in it: calls that have finished (siblings, earlier iterations) do not
+    count against the limit, and a failure half-way does not leak a count.  (By the induction over
+    all functions of the interpreter, `Lemmas/KeepsAll.lean`.) -/
+theorem call_restores_every_context (fuel : Nat) (f : Val) (args : List V) (σ : ES) (h : σ.frames ≠ []) :
+    (resState ((callFunc T cfg g fuel f args).run σ)).frames = σ.frames := by
+  have := (allKeeps T cfg g fuel).callFunc f args
+  unfold KeepsTop at this
+  exact (this σ h).2
 
 end Pongo.C13
